@@ -60,6 +60,14 @@ def execute(script):
                     lat = obj.lattice
                     seeds = [lat[i % len(lat)] for i in args[1]]
                     emit(tag, repr([c.index for c in getattr(lat, name)(seeds)]))
+                elif name == 'upset_generalization':
+                    lat = obj.lattice
+                    seeds = []
+                    for i in args[1]:
+                        c = lat[i % len(lat)]
+                        seeds.append(c)
+                        seeds.extend(c.upper_neighbors[:1])      # a comparable pair
+                    emit(tag, repr([c.index for c in lat.upset_generalization(seeds)]))
                 elif name in ('join', 'meet'):
                     lat = obj.lattice
                     seeds = [lat[i % len(lat)] for i in args[1]]
